@@ -31,6 +31,7 @@ pub fn run(ctx: &Ctx) -> (Report, Meta) {
     .floor("low_level_dense_toggle_pairs", 500);
     let g = GenOpts {
         stiff_for_implicit: true,
+        allow_min_step: true,
         allow_first_step: true,
         allow_max_step: true,
         allow_max_steps: true,
